@@ -159,7 +159,7 @@ theorem C02_overlap_fuel_suffices (s : SV) (d : QueryDoc) (l : Links) (parent : 
     (sels : Selections) (st : OSt) (hP : PSym st.pairs) :
     ∃ st' cs, overlapRun s d l parent sels st = some (st', cs) ∧ PSym st'.pairs := by
   obtain ⟨⟨st', cs⟩, h, a, _⟩ := overlapRun_ok s d l parent sels st hP
-  exact ⟨st', cs, h, a.1⟩
+  exact ⟨st', cs, h, a⟩
 
 /-- The polynomial cost bound (DESIGN C02; impossible before the memo of (selection set, fragment)
     comparisons).  `steps` counts every call of `findConflict`, of
@@ -174,7 +174,7 @@ theorem C02_overlap_ticks (s : SV) (d : QueryDoc) (l : Links) (parent : Option D
     (sels : Selections) (st : OSt) (hP : PSym st.pairs) :
     ∃ st' cs, overlapRun s d l parent sels st = some (st', cs) ∧
       st'.steps ≤ st.steps + overlapStepBound d sels := by
-  obtain ⟨⟨st', cs⟩, h, _, k⟩ := overlapRun_ok s d l parent sels st hP
+  obtain ⟨⟨st', cs⟩, h, _, _, k⟩ := overlapRun_ok s d l parent sels st hP
   exact ⟨st', cs, h, k⟩
 
 /-- the bound of `C02_overlap_ticks`, spelled out -/
